@@ -138,9 +138,13 @@ class Fraction:
         return 0
 
     def __eq__(self, other: Any) -> bool:
+        if not isinstance(other, NumberType + (Fraction,)):
+            return NotImplemented
         return self.__old_cmp__(other) == 0
 
     def __lt__(self, other: Any) -> bool:
+        if not isinstance(other, NumberType + (Fraction,)):
+            return NotImplemented
         return self.__old_cmp__(other) == -1
 
     def __abs__(self) -> "Fraction":
